@@ -36,7 +36,7 @@ def _head(line):
 def proj_allowed(op, line):
     if op.startswith(("rl ", "rle ")):
         return " ".join(_head(line)[:2])
-    if op.startswith("snew"):
+    if op.startswith(("snew", "atrace")):
         return line
     return None
 
@@ -88,7 +88,10 @@ def proj_lifetime(op, line):
 PROPS = {
     "C01": dict(runs=[("core", "hist", dict(quick=1500, thorough=40000))], proj=proj_allowed, tags=["C01"],
                 rule="multi-key monotone histories on a random store configuration; gaps drawn from the refill/expiry/cleanup boundary set; all O(n^2) windows of every fixed-limits key summed; non-trivial = the history has both admitted and denied requests; distinct = hash of configuration + request lines"),
-    "C02": dict(runs=[("core", "hist", dict(quick=1500, thorough=40000))], proj=proj_allowed, tags=["C02"],
+    "C02": dict(runs=[("core", "hist", dict(quick=1500, thorough=40000)), ("server", "actor", dict(quick=60, thorough=600))], proj=proj_allowed, tags=["C02"],
+                # the server's actor must hand the limits to the library unchanged for every store kind: its traces are
+                # replayed through the model and on a fresh library limiter
+                tags_by_mode={"actor": ["C09"]},
                 rule="same histories as C01; every decision compared with an exact integer token bucket (capacity burst, one token per emission interval); non-trivial = both admitted and denied requests present"),
     "C03": dict(runs=[("core", "hist", dict(quick=1000, thorough=20000)), ("core", "probe", dict(quick=800, thorough=12000))], proj=proj_fields, tags=["C03"],
                 rule="hist: every response's fields against the bucket (remaining exact, retry_after exact, reset_after >= refill time, reset_after = lifetime asked of the store); probe: sampled responses probed from a re-executed copy of their state (remaining / remaining+1, retry_after / retry_after-1ns, after reset_after = never-seen key)"),
@@ -109,25 +112,27 @@ PROPS = {
                 rule="(count, period) boundary lattice, divisors and near-divisors of period*1e9, random points in and outside D; unit constructors at boundaries and random n in 1..2^32-1; non-trivial = point inside D"),
     "C09": dict(runs=[("server", "actor", dict(quick=300, thorough=6000)), ("server", "wire", dict(quick=40, thorough=600)), ("server", "binary", dict(quick=60, thorough=120))], proj=proj_full, tags=["C09"],
                 rule="actor: the real actor loop (unspawned, hook) and real RateLimiterHandle::throttle futures polled by a hand-rolled deterministic scheduler - exhaustive enumeration of schedules for small configurations, random schedules for larger; every trace replayed through the Lean LTS validator with the GCRA model as limiter; wire: one in-process server with HTTP + gRPC + RESP on loopback sockets sharing one actor, traces validated (loose enq order)"),
-    "C10": dict(modules=["C10", "C10Resp"], runs=[("server", "actor", dict(quick=300, thorough=6000)), ("server", "conn", dict(quick=60, thorough=1500))], proj=proj_full, tags=["C10"],
+    "C10": dict(modules=["C10", "C10Resp"], runs=[("server", "actor", dict(quick=300, thorough=6000)), ("server", "conn", dict(quick=60, thorough=500))], proj=proj_full, tags=["C10"],
                 rule="actor: schedules with queue capacity down to 1 and cancellation of pending requests at every poll boundary (before enqueue / after enqueue / after the reply was produced); conn: pipelined RESP streams over real TCP cut into random chunkings, PING tags identify reply order"),
-    "C11": dict(runs=[("server", "actor", dict(quick=200, thorough=4000)), ("server", "wire", dict(quick=40, thorough=600)), ("server", "conn", dict(quick=60, thorough=1500)), ("server", "binary", dict(quick=60, thorough=120))], proj=proj_full, tags=["C11"],
+    "C11": dict(runs=[("server", "actor", dict(quick=200, thorough=4000)), ("server", "wire", dict(quick=40, thorough=600)), ("server", "conn", dict(quick=60, thorough=500)), ("server", "binary", dict(quick=60, thorough=120))], proj=proj_full, tags=["C11"],
                 # a connection that stops answering well-formed commands after fragmented / malformed traffic is a C11 failure too
                 tags_by_mode={"conn": ["C10", "C13"], "resp": ["C13"]},
                 rule="hostile prefixes (i64 boundary lattice as requests on every transport, malformed frames, abrupt closes, oversize buffers) followed by a probe request on a new connection whose answer is compared with the model"),
-    "C12": dict(runs=[("server", "cmd", dict(quick=400, thorough=10000)), ("server", "wire", dict(quick=40, thorough=600)), ("server", "binary", dict(quick=60, thorough=120)), ("server", "actor", dict(quick=100, thorough=2000))], proj=proj_full, tags=["C12"],
+    "C12": dict(runs=[("server", "cmd", dict(quick=400, thorough=10000)), ("server", "wire", dict(quick=40, thorough=600)), ("server", "binary", dict(quick=60, thorough=120)), ("server", "actor", dict(quick=100, thorough=2000)), ("server", "conn", dict(quick=60, thorough=500))], proj=proj_full, tags=["C12"],
                 # the actor traces carry the wire-level response (seconds); replaying the proc log on a fresh library limiter checks the conversion
-                tags_by_mode={"actor": ["C09"]},
+                tags_by_mode={"actor": ["C09"], "conn": ["C10", "C13"]},
                 rule="cmd: RESP commands (bulk vs :int arguments, any name case, arity 4..7, non-numeric / overflow arguments) through the real per-command handler with a real actor, the request the actor saw and the reply compared with the model's plan/finish; wire: each logical request routed to a random protocol/encoding over loopback sockets, wire answer compared field by field with what the actor log says the library decided"),
-    "C13": dict(runs=[("server", "resp", dict(quick=900, thorough=200000)), ("server", "conn", dict(quick=60, thorough=1500))], proj=proj_full, tags=["C13"],
+    "C13": dict(runs=[("server", "resp", dict(quick=900, thorough=200000)), ("server", "conn", dict(quick=60, thorough=500))], proj=proj_full, tags=["C13"],
                 rule="resp: ALL byte strings up to length 5 (thorough 6) over the 13-symbol protocol alphabet + grammar-generated frames with mutations and hostile headers through the real RespParser vs the model; prefix-stability / bounds / depth-restored asserted on the real parser; conn: real TCP, same stream under several chunkings incl. 1-byte chunks"),
-    "C14": dict(runs=[("server", "resp", dict(quick=900, thorough=200000)), ("server", "cmd", dict(quick=400, thorough=10000)), ("server", "conn", dict(quick=60, thorough=1500))], proj=proj_full, tags=["C14"],
+    "C14": dict(runs=[("server", "resp", dict(quick=900, thorough=99999)), ("server", "cmd", dict(quick=400, thorough=10000)), ("server", "conn", dict(quick=60, thorough=500))], proj=proj_full, tags=["C14"],
                 # the reply stream of a real connection must stay in step with the command stream
                 tags_by_mode={"conn": ["C10", "C13"], "resp": ["C13"]},
                 rule="resp: recursively generated values (all five kinds, CR/LF inside bulk strings, i64 extremes, depth up to 128) through the real serializer and parser; cmd: every reply of the real command handler serialised and parsed back as exactly one frame (command names with CR/LF, quotes, non-ASCII)"),
     "C15": dict(runs=[("server", "metrics", dict(quick=300, thorough=6000)), ("server", "cmd", dict(quick=400, thorough=10000)), ("server", "wire", dict(quick=40, thorough=600)), ("server", "binary", dict(quick=60, thorough=120))], proj=proj_full, tags=["C15"],
                 rule="metrics: random event lists vs the model's counters; 8 OS threads hammering one Metrics, identities at barriers; cmd/wire: which counter each real command moved, /metrics scraped and parsed at quiescent points and compared with what clients saw"),
-    "C16": dict(runs=[("server", "metrics", dict(quick=300, thorough=6000))], proj=proj_full, tags=["C16"],
+    "C16": dict(runs=[("server", "metrics", dict(quick=300, thorough=6000)), ("server", "wire", dict(quick=40, thorough=300)), ("server", "binary", dict(quick=60, thorough=120))], proj=proj_full, tags=["C16"],
+                # the tracker behind the real transports / the real binary (incl. debug logging): a tracker that stops recording is a C16 failure
+                tags_by_mode={"wire": ["C11", "C15"], "binary": ["C11", "C15"]},
                 rule="adversarial denial streams (unbounded distinct keys, late heavy hitters, ties, 255/256/257-byte keys, quotes/backslashes/controls/non-ASCII) on sizes 1..100 (+0, 20000 for the clamp); the table before/after EVERY update and every report checked by the model's relational validators (any tie-breaking accepted); escaped labels compared byte for byte; export parsed back line by line"),
 }
 
